@@ -385,7 +385,9 @@ class ModuleFinder:
 
     def _extend_from_pth_files(self) -> None:
         for path in self.search_paths:
-            for item in self._contents(path):
+            # Like the `site` module, handle the `.pth` files of a directory in alphabetical order,
+            # not in the arbitrary order the operating system lists them.
+            for item in sorted(self._contents(path)):
                 if item.suffix == ".pth":
                     for directory in _handle_pth_file(item):
                         if scan := directory.always_scan_for:
